@@ -360,7 +360,19 @@ struct Case {
     dead: bool,
 }
 
+struct StderrLog;
+impl log::Log for StderrLog {
+    fn enabled(&self, _: &log::Metadata) -> bool { true }
+    fn log(&self, r: &log::Record) { eprintln!("LOG {} {}", r.level(), r.args()); }
+    fn flush(&self) {}
+}
+static LOGGER: StderrLog = StderrLog;
+
 fn main() {
+    if std::env::var("QH_LOG").is_ok() {
+        let _ = log::set_logger(&LOGGER);
+        log::set_max_level(log::LevelFilter::Trace);
+    }
     std::panic::set_hook(Box::new(|info| {
         if let Some(l) = info.location() {
             *PLOC.lock().unwrap() = format!("{}:{}", l.file().rsplit('/').next().unwrap_or(""), l.line());
@@ -369,6 +381,20 @@ fn main() {
     let args: Vec<String> = std::env::args().collect();
     if args[1] == "codec" {
         codec::run(&args[2]);
+        return;
+    }
+    if args[1] == "cache" {
+        // one script per line: "<limit> <op>:<key> <op>:<key> ..." -> "script <n>" then one line per step
+        let text = std::fs::read_to_string(&args[2]).expect("script file");
+        for (n, line) in text.lines().enumerate() {
+            let mut it = line.split_whitespace();
+            let limit: usize = match it.next() { Some(x) => x.parse().unwrap(), None => continue };
+            let ops: Vec<(u8, usize)> = it.map(|t| { let mut p = t.split(':'); (p.next().unwrap().parse().unwrap(), p.next().unwrap().parse().unwrap()) }).collect();
+            println!("script {}", n);
+            for l in qcow2_rs::cache::verif::cache_script(limit, &ops) {
+                println!("{}", l);
+            }
+        }
         return;
     }
     let batch = std::fs::read_to_string(&args[1]).expect("batch file");
@@ -468,6 +494,18 @@ fn main() {
                         "punch" => {
                             for f in &c.files {
                                 f.0.borrow_mut().punch_supported = v == "1";
+                            }
+                        }
+                        "tail" => {
+                            // tail=<bytes>:<fill>  the top image file is longer than the image needs
+                            // (preallocated file, block device): <bytes> of <fill> are appended
+                            let mut it2 = v.split(':');
+                            let n: usize = it2.next().unwrap().parse().unwrap();
+                            let fill: u8 = it2.next().unwrap_or("0").parse().unwrap();
+                            if let Some(f) = c.files.first() {
+                                let mut inner = f.0.borrow_mut();
+                                let len = inner.data.len();
+                                inner.data.resize(len + n, fill);
                             }
                         }
                         "maxlen" => {
